@@ -15,6 +15,7 @@ package fasthttp
 import (
 	"bufio"
 	"bytes"
+	"encoding/binary"
 	"encoding/json"
 	"errors"
 	"fmt"
@@ -32,7 +33,39 @@ type c07Vec struct {
 	Lim    int    `json:"lim"`
 	Total  int    `json:"total"`
 	Pieces []int  `json:"pieces"`
+	Precap string `json:"precap"` // capacity the destination already has: fresh | small | big
+	Claim  string `json:"claim"`  // what the stream says about its own size: true | low | high
 	Expect string `json:"expect"`
+}
+
+// c07Precap: bytes of an earlier, unlimited body that the destination object has held (so its
+// buffer has at least that capacity) before the limited read.
+func c07Precap(class string, lr int) int {
+	switch class {
+	case "small":
+		return lr/2 + 1
+	case "big":
+		return 4*lr + 4096
+	}
+	return 0
+}
+
+func c07PriorResponse(resp *Response, n int) {
+	if n > 0 {
+		wire := append([]byte("HTTP/1.1 200 OK\r\nContent-Length: "+strconv.Itoa(n)+"\r\n\r\n"), make([]byte, n)...)
+		if err := resp.Read(bufio.NewReader(bytes.NewReader(wire))); err != nil {
+			panic("c07: prior response: " + err.Error())
+		}
+	}
+}
+
+func c07PriorRequest(req *Request, n int) {
+	if n > 0 {
+		wire := append([]byte("POST /prior HTTP/1.1\r\nHost: h\r\nContent-Length: "+strconv.Itoa(n)+"\r\n\r\n"), make([]byte, n)...)
+		if err := req.Read(bufio.NewReader(bytes.NewReader(wire))); err != nil {
+			panic("c07: prior request: " + err.Error())
+		}
+	}
 }
 
 // c07Scale maps model piece sizes to real ones for the real limit lr, preserving the
@@ -207,10 +240,18 @@ func (h *c07T) check(target string, v *c07Vec, lr int, real []int, got string, n
 	if tr > lr {
 		rel = "gt"
 	}
+	if v.Precap != "" && v.Precap != "fresh" {
+		target += "/dst-" + v.Precap
+	}
+	if v.Claim != "" && v.Claim != "true" {
+		target += "/claimed-size-" + v.Claim
+	}
 	key := fmt.Sprintf("%s:%s:total-%s-limit", target, v.Kind, rel)
 	switch {
 	case n > lr:
 		h.viol("over:"+key, fmt.Sprintf("%s returned %d bytes with limit %d (total %d, pieces %v)", target, n, lr, tr, real), cas)
+	case v.Expect == "any":
+		// a stream lying about its size within the limit: corruption error or data, both fine
 	case v.Expect == "accepted" && got != "accepted":
 		h.viol("refused:"+key, fmt.Sprintf("%s: total %d <= limit %d but the input was rejected (%s) (pieces %v)", target, tr, lr, note, real), cas)
 	case v.Expect == "accepted" && (n != tr || !equal):
@@ -229,6 +270,152 @@ func c07Alloc(f func()) uint64 {
 	f()
 	runtime.ReadMemStats(&b)
 	return b.TotalAlloc - a.TotalAlloc
+}
+
+// c07Client: the response through HostClient with MaxResponseBodySize: Do into a Response that
+// has held a body of pre bytes before, and Get into a dst with capacity pre.
+func c07Client(h *c07T, v *c07Vec, lr int, real []int, respSegs [][]byte, data []byte, pre int) {
+	dial := func(string) (net.Conn, error) {
+		cp := make([][]byte, len(respSegs))
+		copy(cp, respSegs)
+		return &c07ClientConn{c07Conn: c07Conn{segs: cp}}, nil
+	}
+	{
+		hc := &HostClient{Addr: "h:80", MaxResponseBodySize: lr, MaxIdemponentCallAttempts: 1, Dial: dial}
+		var req Request
+		var resp Response
+		c07PriorResponse(&resp, pre)
+		req.SetRequestURI("http://h/b")
+		err := hc.Do(&req, &resp)
+		if err == nil {
+			h.check("HostClient.Do", v, lr, real, "accepted", len(resp.Body()), bytes.Equal(resp.Body(), data), false, "")
+		} else {
+			h.check("HostClient.Do", v, lr, real, "rejected", 0, false, errors.Is(err, ErrBodyTooLarge), "error "+err.Error())
+		}
+	}
+	{
+		hc := &HostClient{Addr: "h:80", MaxResponseBodySize: lr, MaxIdemponentCallAttempts: 1, Dial: dial}
+		var dst []byte
+		if pre > 0 {
+			dst = make([]byte, 0, pre)
+		}
+		_, body, err := hc.Get(dst, "http://h/b")
+		if err == nil {
+			h.check("HostClient.Get", v, lr, real, "accepted", len(body), bytes.Equal(body, data), false, "")
+		} else {
+			h.check("HostClient.Get", v, lr, real, "rejected", 0, false, errors.Is(err, ErrBodyTooLarge), "error "+err.Error())
+		}
+	}
+}
+
+// c07Codecs runs the Body*WithLimit helpers on data compressed as one stream per piece
+// (concatenated members / frames) with the size claim of the vector.
+func c07Codecs(h *c07T, v *c07Vec, lr int, real []int, data []byte) {
+	type codec struct {
+		name, ce string
+		enc      func(dst, src []byte) []byte
+		reqDec   func(*Request, int) ([]byte, error)
+		respDec  func(*Response, int) ([]byte, error)
+		concat   bool
+	}
+	codecs := []codec{
+		{"Gunzip", "gzip", AppendGzipBytes, (*Request).BodyGunzipWithLimit, (*Response).BodyGunzipWithLimit, true},
+		{"Inflate", "deflate", AppendDeflateBytes, (*Request).BodyInflateWithLimit, (*Response).BodyInflateWithLimit, false},
+		{"Unbrotli", "br", AppendBrotliBytes, (*Request).BodyUnbrotliWithLimit, (*Response).BodyUnbrotliWithLimit, false},
+		{"Unzstd", "zstd", AppendZstdBytes, (*Request).BodyUnzstdWithLimit, (*Response).BodyUnzstdWithLimit, true},
+	}
+	for _, cd := range codecs {
+		if !cd.concat && len(real) > 1 {
+			continue
+		}
+		if v.Claim != "true" && cd.ce != "gzip" {
+			continue
+		}
+		var comp []byte
+		if len(real) <= 1 {
+			comp = cd.enc(nil, data)
+		} else {
+			for _, part := range c07Split(data, real) {
+				comp = cd.enc(comp, part)
+			}
+		}
+		lastMember := len(data)
+		if len(real) > 1 {
+			lastMember = real[len(real)-1]
+		}
+		switch v.Claim { // forge the ISIZE trailer of the last gzip member
+		case "low":
+			if lastMember == 0 {
+				continue
+			}
+			binary.LittleEndian.PutUint32(comp[len(comp)-4:], 0)
+		case "high":
+			binary.LittleEndian.PutUint32(comp[len(comp)-4:], uint32(lr+1000))
+		}
+		var req Request
+		req.SetBody(comp)
+		req.Header.SetContentEncoding(cd.ce)
+		var resp Response
+		resp.SetBody(comp)
+		resp.Header.SetContentEncoding(cd.ce)
+		type call struct {
+			name string
+			f    func() ([]byte, error)
+		}
+		calls := []call{
+			{"Request.Body" + cd.name + "WithLimit", func() ([]byte, error) { return cd.reqDec(&req, lr) }},
+			{"Response.Body" + cd.name + "WithLimit", func() ([]byte, error) { return cd.respDec(&resp, lr) }},
+			{"Request.BodyUncompressedWithLimit/" + cd.ce, func() ([]byte, error) { return req.BodyUncompressedWithLimit(lr) }},
+			{"Response.BodyUncompressedWithLimit/" + cd.ce, func() ([]byte, error) { return resp.BodyUncompressedWithLimit(lr) }},
+		}
+		for _, cl := range calls {
+			b, err := cl.f()
+			if err == nil {
+				h.check(cl.name, v, lr, real, "accepted", len(b), bytes.Equal(b, data), false, "")
+			} else {
+				h.check(cl.name, v, lr, real, "rejected", len(b), false, errors.Is(err, ErrBodyTooLarge), "error "+err.Error())
+			}
+		}
+		// gzip-encoded multipart/form-data through MultipartFormWithLimit
+		const mpre = "--B\r\nContent-Disposition: form-data; name=\"f\"\r\n\r\n"
+		const mpost = "\r\n--B--\r\n"
+		if cd.ce == "gzip" && len(data) >= len(mpre)+len(mpost) {
+			val := c07Data(len(data) - len(mpre) - len(mpost))
+			text := []byte(mpre + string(val) + mpost)
+			var mcomp []byte
+			if len(real) <= 1 {
+				mcomp = AppendGzipBytes(nil, text)
+			} else {
+				for _, part := range c07Split(text, real) {
+					mcomp = AppendGzipBytes(mcomp, part)
+				}
+			}
+			switch v.Claim {
+			case "low":
+				binary.LittleEndian.PutUint32(mcomp[len(mcomp)-4:], 0)
+			case "high":
+				binary.LittleEndian.PutUint32(mcomp[len(mcomp)-4:], uint32(lr+1000))
+			}
+			var mreq Request
+			mreq.Header.SetContentType("multipart/form-data; boundary=B")
+			mreq.Header.SetContentEncoding("gzip")
+			mreq.SetBody(mcomp)
+			f, err := mreq.MultipartFormWithLimit(lr)
+			if err == nil {
+				got := ""
+				if vs := f.Value["f"]; len(vs) == 1 {
+					got = vs[0]
+				}
+				n := len(data)
+				if got != string(val) {
+					n = len(got)
+				}
+				h.check("MultipartFormWithLimit/gzip", v, lr, real, "accepted", n, got == string(val), false, "")
+			} else {
+				h.check("MultipartFormWithLimit/gzip", v, lr, real, "rejected", 0, false, errors.Is(err, ErrBodyTooLarge), "error "+err.Error())
+			}
+		}
+	}
 }
 
 func TestVerifC07BodyLimit(t *testing.T) {
@@ -298,8 +485,9 @@ func TestVerifC07BodyLimit(t *testing.T) {
 					frame = "Transfer-Encoding: chunked\r\n"
 					bodySegs = c07Chunked(data, real)
 				}
-				// (1) live server
-				{
+				pre := c07Precap(v.Precap, lr)
+				// (1) live server (no destination-capacity dimension)
+				if pre == 0 {
 					segs := [][]byte{[]byte("POST /b HTTP/1.1\r\nHost: h\r\n" + frame + "\r\n")}
 					segs = append(segs, bodySegs...)
 					segs = append(segs, canary)
@@ -319,6 +507,7 @@ func TestVerifC07BodyLimit(t *testing.T) {
 				{
 					r := &c07Conn{segs: append([][]byte{[]byte("POST /b HTTP/1.1\r\nHost: h\r\n" + frame + "\r\n")}, bodySegs...)}
 					var req Request
+					c07PriorRequest(&req, pre)
 					err := req.ReadLimitBody(bufio.NewReader(r), lr)
 					if err == nil {
 						h.check("Request.ReadLimitBody", &v, lr, real, "accepted", len(req.Body()), bytes.Equal(req.Body(), data), false, "")
@@ -331,6 +520,7 @@ func TestVerifC07BodyLimit(t *testing.T) {
 				{
 					r := &c07Conn{segs: respSegs}
 					var resp Response
+					c07PriorResponse(&resp, pre)
 					err := resp.ReadLimitBody(bufio.NewReader(r), lr)
 					if err == nil {
 						h.check("Response.ReadLimitBody", &v, lr, real, "accepted", len(resp.Body()), bytes.Equal(resp.Body(), data), false, "")
@@ -338,24 +528,13 @@ func TestVerifC07BodyLimit(t *testing.T) {
 						h.check("Response.ReadLimitBody", &v, lr, real, "rejected", 0, false, errors.Is(err, ErrBodyTooLarge), "error "+err.Error())
 					}
 				}
-				// (4) HostClient with MaxResponseBodySize (sampled)
+				// (4) HostClient with MaxResponseBodySize (sampled): Do into a (reused) Response and
+				// Get into a caller-supplied dst of the given capacity
 				if nvec%7 == 0 || tr == lr || tr == lr+1 {
-					hc := &HostClient{Addr: "h:80", MaxResponseBodySize: lr, MaxIdemponentCallAttempts: 1,
-						Dial: func(string) (net.Conn, error) {
-							return &c07ClientConn{c07Conn: c07Conn{segs: respSegs}}, nil
-						}}
-					var req Request
-					var resp Response
-					req.SetRequestURI("http://h/b")
-					err := hc.Do(&req, &resp)
-					if err == nil {
-						h.check("HostClient.Do", &v, lr, real, "accepted", len(resp.Body()), bytes.Equal(resp.Body(), data), false, "")
-					} else {
-						h.check("HostClient.Do", &v, lr, real, "rejected", 0, false, errors.Is(err, ErrBodyTooLarge), "error "+err.Error())
-					}
+					c07Client(h, &v, lr, real, respSegs, data, pre)
 				}
 				// (5) MultipartFormWithLimit on an in-memory body of exactly tr bytes
-				if v.Kind == "fixed" && len(real) <= 1 {
+				if v.Kind == "fixed" && len(real) <= 1 && pre == 0 {
 					const pre = "--B\r\nContent-Disposition: form-data; name=\"f\"\r\n\r\n"
 					const post = "\r\n--B--\r\n"
 					if tr >= len(pre)+len(post) {
@@ -384,7 +563,7 @@ func TestVerifC07BodyLimit(t *testing.T) {
 				// pre-parsing is off): the declared length alone must decide, as for any fixed body.
 				// When the scaled total is too small to be a multipart entity it is only usable for
 				// the rejecting side: any real entity is then larger than the limit as well.
-				if v.Kind == "fixed" && len(real) <= 2 {
+				if v.Kind == "fixed" && len(real) <= 2 && pre == 0 {
 					const pre = "--B\r\nContent-Disposition: form-data; name=\"f\"\r\n\r\n"
 					const post = "\r\n--B--\r\n"
 					mtr := tr
@@ -466,58 +645,27 @@ func TestVerifC07BodyLimit(t *testing.T) {
 					}
 				}
 			case "probe":
-				// identity-until-close response, pieces = reads
-				{
+				pre := c07Precap(v.Precap, lr)
+				// identity-until-close response, pieces = reads (the stream makes no claim)
+				if v.Claim == "true" {
 					segs := append([][]byte{[]byte("HTTP/1.1 200 OK\r\nConnection: close\r\n\r\n")}, c07Split(data, real)...)
 					r := &c07Conn{segs: segs}
 					var resp Response
+					c07PriorResponse(&resp, pre)
 					err := resp.ReadLimitBody(bufio.NewReader(r), lr)
 					if err == nil {
 						h.check("Response.ReadLimitBody/identity", &v, lr, real, "accepted", len(resp.Body()), bytes.Equal(resp.Body(), data), false, "")
 					} else {
 						h.check("Response.ReadLimitBody/identity", &v, lr, real, "rejected", 0, false, errors.Is(err, ErrBodyTooLarge), "error "+err.Error())
 					}
+					if nvec%5 == 0 || tr == lr || tr == lr+1 {
+						c07Client(h, &v, lr, real, segs, data, pre)
+					}
 				}
-				if len(real) <= 1 {
-					type codec struct {
-						name, ce string
-						enc      func(dst, src []byte) []byte
-						reqDec   func(*Request, int) ([]byte, error)
-						respDec  func(*Response, int) ([]byte, error)
-					}
-					codecs := []codec{
-						{"Gunzip", "gzip", AppendGzipBytes, (*Request).BodyGunzipWithLimit, (*Response).BodyGunzipWithLimit},
-						{"Inflate", "deflate", AppendDeflateBytes, (*Request).BodyInflateWithLimit, (*Response).BodyInflateWithLimit},
-						{"Unbrotli", "br", AppendBrotliBytes, (*Request).BodyUnbrotliWithLimit, (*Response).BodyUnbrotliWithLimit},
-						{"Unzstd", "zstd", AppendZstdBytes, (*Request).BodyUnzstdWithLimit, (*Response).BodyUnzstdWithLimit},
-					}
-					for _, cd := range codecs {
-						comp := cd.enc(nil, data)
-						var req Request
-						req.SetBody(comp)
-						req.Header.SetContentEncoding(cd.ce)
-						var resp Response
-						resp.SetBody(comp)
-						resp.Header.SetContentEncoding(cd.ce)
-						type call struct {
-							name string
-							f    func() ([]byte, error)
-						}
-						calls := []call{
-							{"Request.Body" + cd.name + "WithLimit", func() ([]byte, error) { return cd.reqDec(&req, lr) }},
-							{"Response.Body" + cd.name + "WithLimit", func() ([]byte, error) { return cd.respDec(&resp, lr) }},
-							{"Request.BodyUncompressedWithLimit/" + cd.ce, func() ([]byte, error) { return req.BodyUncompressedWithLimit(lr) }},
-							{"Response.BodyUncompressedWithLimit/" + cd.ce, func() ([]byte, error) { return resp.BodyUncompressedWithLimit(lr) }},
-						}
-						for _, cl := range calls {
-							b, err := cl.f()
-							if err == nil {
-								h.check(cl.name, &v, lr, real, "accepted", len(b), bytes.Equal(b, data), false, "")
-							} else {
-								h.check(cl.name, &v, lr, real, "rejected", len(b), false, errors.Is(err, ErrBodyTooLarge), "error "+err.Error())
-							}
-						}
-					}
+				// decompression helpers: pieces = members / frames of a concatenated stream where the
+				// format has them (gzip, zstd); the gzip ISIZE trailer of the last member may lie
+				if pre == 0 && len(real) <= 3 {
+					c07Codecs(h, &v, lr, real, data)
 				}
 			case "head":
 				// request head of exactly tr bytes against ReadBufferSize = lr
